@@ -450,7 +450,7 @@ pub const T_UNI: [&str; 20] = [
 
 /// Counted-quantifier syntax: every truncation and permutation of `a{1,2}` (also
 /// under flag x, with blanks).
-pub const T_QUANT: [&str; 10] = ["a", "{", "}", ",", "1", "2", "0", "?", " ", ")"];
+pub const T_QUANT: [&str; 11] = ["a", "{", "}", ",", "1", "2", "0", "?", " ", "+", "-"];
 
 /// Group syntax around back-references: capturing and non-capturing groups,
 /// references to closed, open and later groups.
